@@ -2032,9 +2032,17 @@ impl<'a, const C: usize, const R: usize, T: 'a + Copy + std::fmt::Debug> Layout<
     pub fn trans_resolution_layer_order(&self) -> LayerStack {
         let current_layer = self.current_layer();
         if self.trans_resolution_behavior_v2 {
-            let mut v = self.active_held_layers().collect::<LayerStack>();
+            let push_first_layer =
+                self.delegate_to_first_layer && current_layer != 0 && self.default_layer != 0;
+            // Keep room for the base layer (and the first layer). With more held layers than
+            // fit, the oldest ones are left out instead of overflowing the stack.
+            let max_held = MAX_ACTIVE_LAYERS - 1 - usize::from(push_first_layer);
+            let mut v = self
+                .active_held_layers()
+                .take(max_held)
+                .collect::<LayerStack>();
             let _ = v.push(self.default_layer as u16);
-            if self.delegate_to_first_layer && current_layer != 0 && self.default_layer != 0 {
+            if push_first_layer {
                 let _ = v.push(0);
             }
             v
